@@ -32,7 +32,7 @@ TIMEOUTS = [0.02, 0.05, 0.1, 0.5, 1.0, 6.0]
 # the echo peer's replies are 26 + <=8 bytes; rig sizes its receive buffer
 # from buffer_size + 8, so only sizes whose receive length holds a whole reply
 # are used here (receive-length sizing itself belongs to C07)
-BUFFERS = [32, 64, 100, 128, 255, 256, 512]
+BUFFERS = [32, 64, 100, 128, 255, 256, 512, 236, 108, 44, 492]
 CMDS = [0, 2, 3, 5, 17, 18, 20, 22, 23, 25, 26, 28, 29, 31, 48, 57]
 
 
